@@ -365,7 +365,15 @@ func init() {
 			}
 			fr.Preempt, fs.Preempt = 1, 1
 			fr.PreemptAt, fs.PreemptAt = "select", "select"
-			js = append(js, ds, fr, fs, rs)
+			sc := hj("C15.sender-control", "H_C15_sender_control", "the real sender with N arbitrary bytes as the receiver's side of the control stream")
+			sc.Threads, sc.MaxPaths = true, 5000000
+			sc.TimerBudget = 1
+			sc.CanonicalBlock = true // one schedule per input class: the subject is what the bytes decode to, schedules are C02.sender's
+			sc.Stubs = map[string]interceptFn{repoModule + "/internal/transfer.readAtWithPool": stubReadAtDirect}
+			ss := hj("C15.sender-control-silent", "H_C15_sender_control_silent", "as C15.sender-control with a peer that stays silent after the bytes: success only for a real acknowledgement")
+			ss.Threads, ss.MaxPaths, ss.TimerBudget, ss.CanonicalBlock, ss.BlockedOK = true, 5000000, 1, true, true
+			ss.Stubs = sc.Stubs
+			js = append(js, ds, fr, fs, rs, sc, ss)
 			for _, j := range js {
 				j.AllocLimit = 64<<20 + 2*48
 				j.Workers = 6
